@@ -6,10 +6,15 @@ package qframe
 // well-formedness, literals; numbers are the engine's number-text tokens).
 
 import (
+	"bytes"
+	"errors"
+	"io"
 	"math"
 	"strconv"
 	"unicode/utf8"
 
+	"github.com/tobgu/qframe/config/newqf"
+	qfio "github.com/tobgu/qframe/internal/io"
 	"github.com/tobgu/qframe/internal/vx"
 )
 
@@ -276,4 +281,145 @@ func VX_C14_tojson() {
 	r.expect(']')
 	vx.Check(r.ok && r.pos == len(r.b), "valid JSON: array of one object per row")
 	vx.Reach("end")
+}
+
+// c14decode is the reference decoder that stands in for encoding/json's
+// Decoder.Decode(&[]map[string]interface{}) in the engine: objects become maps (a repeated
+// key keeps its last value), numbers float64, strings their denoted text, null nil.
+func c14decode(rd io.Reader) (interface{}, error) {
+	var b []byte
+	buf := make([]byte, 512)
+	for {
+		n, err := rd.Read(buf)
+		b = append(b, buf[:n]...)
+		if err != nil {
+			if err != io.EOF {
+				return nil, err
+			}
+			break
+		}
+	}
+	r := &c14rd{b: b, ok: true}
+	recs := qfio.JSONRecords{}
+	r.expect('[')
+	first := true
+	for r.ok && !r.peek(']') {
+		if !first {
+			r.expect(',')
+		}
+		first = false
+		r.expect('{')
+		m := map[string]interface{}{}
+		firstKey := true
+		for r.ok && !r.peek('}') {
+			if !firstKey {
+				r.expect(',')
+			}
+			firstKey = false
+			key := r.str()
+			r.expect(':')
+			if r.peek('"') {
+				m[key] = r.str()
+				continue
+			}
+			switch tok := r.token(); tok {
+			case "null":
+				m[key] = nil
+			case "true":
+				m[key] = true
+			case "false":
+				m[key] = false
+			default:
+				v, err := strconv.ParseFloat(tok, 64)
+				if err != nil {
+					return nil, errors.New("invalid number in JSON text")
+				}
+				m[key] = v
+			}
+		}
+		r.expect('}')
+		recs = append(recs, m)
+	}
+	r.expect(']')
+	if !r.ok || r.pos != len(b) {
+		return nil, errors.New("invalid JSON text")
+	}
+	return recs, nil
+}
+
+// VX_C14_readjson: ReadJSON applied to what ToJSON wrote reproduces the frame
+// (bool, string, enum, NaN-free float columns; int columns as equal-valued floats).
+func VX_C14_readjson() {
+	vx.ModelJSONDecoder(c14decode)
+	n := vx.ParamInt("n")
+	P := n + 1
+	var names []string
+	var cols []vxCol
+	for _, t := range splitComma(vx.ParamStr("types")) {
+		var c vxCol
+		switch t {
+		case "string":
+			c = vxCol{typ: "string", s: make([]string, P), null: make([]bool, P)}
+			for p := range c.s {
+				c.s[p], c.null[p] = vxStrCell(vx.ParamInt("strlen"), true)
+				c14assume(c.s[p], c14cellAlpha)
+			}
+		case "enum":
+			c = vxMakeColLite("enum", P)
+		default:
+			c = vxMakeCol(t, P, 0)
+		}
+		if t == "float" {
+			for _, v := range c.f {
+				vx.Assume(vx.And(v == v, !math.IsInf(v, 0))) // finite, NaN-free
+			}
+		}
+		names = append(names, string(rune('a'+len(names)))+t[:1])
+		cols = append(cols, c)
+	}
+	ix := make([]uint32, n)
+	for k := range ix {
+		ix[k] = uint32(n - k)
+	}
+	f := vxFrame(names, cols, ix)
+	w := &vxBuf{}
+	vx.Check(f.ToJSON(w) == nil, "ToJSON: no error")
+	enums := map[string][]string{}
+	ecols := make([]vxCol, len(cols))
+	for k, c := range cols {
+		switch c.typ {
+		case "enum":
+			enums[names[k]] = vxEnumVals
+		case "int": // JSON has one number type: ints return as equal-valued floats
+			fc := vxCol{typ: "float", f: make([]float64, P)}
+			for p := range fc.f {
+				fc.f[p] = float64(c.i[p])
+			}
+			c = fc
+		case "string": // the text the cell denotes (malformed UTF-8 cannot be written in JSON)
+			sc := vxCol{typ: "string", s: make([]string, P), null: c.null}
+			for p := range sc.s {
+				sc.s[p] = c14valid(c.s[p])
+			}
+			c = sc
+		}
+		ecols[k] = c
+	}
+	g := ReadJSON(bytes.NewReader(w.b), newqf.ColumnOrder(names...), newqf.Enums(enums))
+	vxCheckFrameVal(g, names, ecols, ix, "ReadJSON of ToJSON")
+	vx.Reach("end")
+}
+
+func splitComma(s string) []string {
+	var out []string
+	cur := ""
+	for k := 0; k < len(s); k++ {
+		if s[k] == ',' {
+			out = append(out, cur)
+			cur = ""
+			continue
+		}
+		cur += string(s[k])
+	}
+	return append(out, cur)
 }
